@@ -2,6 +2,8 @@
 //!
 //!   gcverif-collect c15            one line per generated case:
 //!        case <name> | <ty> | <val> | needs_trace=<b> reported=[..] direct=[..] unknown=<n>
+//!        surv <name> observed:<n> destructed:<n> tokens:<n> tokens_dropped:<n> garbage:<b>   (second pass)
+//!        ntcase <name> | <ty> | needs_trace=<b>        (types of which no finite value exists)
 //!   gcverif-collect c15-stats      the generator's shape-distribution statistics
 //!   gcverif-collect c15-src <name> the Rust source of a case (replay snippet)
 //!   gcverif-collect c16            one line per container case + verdict lines (see c16.rs)
@@ -19,9 +21,16 @@ fn main() {
     let args: Vec<String> = std::env::args().collect();
     match args.get(1).map(|s| s.as_str()) {
         Some("c15") => {
-            println!("# seed={} groups={} cases={}", shapes::SEED, shapes::GROUPS, shapes::CASES.len());
+            println!("# seed={} groups={} family={} cases={}", shapes::SEED, shapes::GROUPS, shapes::FAMILY, shapes::CASES.len());
+            use std::io::Write;
+            // pass 1: NEEDS_TRACE and the recorded trace of every case (no collection runs here)
             for c in shapes::CASES {
-                let obs = rootless_mutate(|mc| (c.run)(mc));
+                if let Some(nt) = c.nt {
+                    let b = rootless_mutate(|mc| nt(mc));
+                    println!("ntcase {} | {} | needs_trace={}", c.name, c.ty, b);
+                    continue;
+                }
+                let obs = rootless_mutate(|mc| (c.run.unwrap())(mc));
                 println!(
                     "case {} | {} | {} | needs_trace={} reported={} direct={} unknown={}",
                     c.name,
@@ -33,6 +42,18 @@ fn main() {
                     obs.unknown
                 );
             }
+            std::io::stdout().flush().ok();
+            // pass 2: end-to-end survival (the value as arena root, two full cycles)
+            for c in shapes::CASES {
+                if let Some(sv) = c.survive {
+                    let s = sv();
+                    println!(
+                        "surv {} observed:{} destructed:{} tokens:{} tokens_dropped:{} garbage:{}",
+                        c.name, s.observed, s.destructed, s.tokens, s.tokens_dropped, s.garbage_collected
+                    );
+                }
+            }
+            println!("# done");
         }
         Some("c15-stats") => print!("{}", shapes::STATS),
         Some("c15-src") => {
